@@ -33,7 +33,9 @@ MANIFEST = {
              "on every run and 21 theorems over ℝ are re-checked against them for every non-degenerate cell (no bound on parameters): "
              "direct·inverse = inverse·direct = 1 (hence Cartesian/fractional round trips for any number of points), row norms and row "
              "dot products equal the lengths/angles, det = volume > 0, reciprocal lengths/angles are those of the columns of the inverse, "
-             "the vector route recovers the parameters and any left inverse equals the closed form, the named constructors give valid cells."),
+             "the vector route recovers the parameters and any left inverse equals the closed form, the named constructors give valid cells. "
+             "Seven further theorems (general matrix algebra) cover lattice vectors in ANY orientation, proper or improper: the metric tensor — all "
+             "lengths and angles — the reciprocal metric and det^2 do not depend on it, the inverse is Q^T·D^-1, and the round trip holds for any right inverse."),
     "note": ("Trusted: Lean kernel + Mathlib (standard axioms), the symbolic translator (validated by running its Float output against the "
              "real class each run), exact-real semantics for floating point and numpy primitives; set_vectors/constructors hand-modelled and "
              "tied numerically."),
@@ -247,6 +249,8 @@ def build_variants(kind, prm):
           ("UnitCell(vectors turned 180 deg about z)", lambda: UnitCell(std() @ np.diag([-1.0, -1.0, 1.0]))),
           ("UnitCell(vectors in a general orientation)", lambda: UnitCell(std() @ Q.T)),
           # a left-handed set of lattice vectors (mirror image / two vectors listed in the other order) spans the same kind of cell
+          ("UnitCell(vectors as a Fortran-ordered array)", lambda: UnitCell(np.asfortranarray(std() @ Q.T))),
+          ("UnitCell(vectors as a transposed view)", lambda: UnitCell(np.ascontiguousarray((std() @ Q.T).T).T)),
           ("UnitCell(left-handed vectors: mirrored in z)", lambda: UnitCell(std() @ np.diag([1.0, 1.0, -1.0]))),
           ("UnitCell(left-handed vectors: general orientation, mirrored)", lambda: UnitCell(std() @ Q.T @ np.diag([-1.0, 1.0, 1.0])))]
 
